@@ -4,6 +4,7 @@ from orquesta import statuses as S
 from vt import defs
 from vt.choice import ReplayChooser
 from vt.env import Env, Policy, Violation, outcome, run_script
+from vt.harness import kernels
 from vt.harness.common import control_slices, ob
 from vt.monitors import C09Pause, count
 
@@ -49,7 +50,7 @@ def pause_twin(ch, ctx, did, steps, twin=False, **pol):
 
 
 def obligations(tier):
-    obs = []
+    obs = [kernels.e1("C09", "L7_pausing_holds", "L7_pausing_holds", timeout=600)]
     quick = [("D02", 5), ("D03", 4), ("D04", 5), ("D07", 5), ("D08", 4), ("D09", 8), ("D10", 5), ("D11", 5), ("D12p", 7), ("D13", 4)]
     for did, steps in quick:
         o = ob("C09", "e2c." + did, "vt.harness.C09:pause_twin", {"did": did, "steps": steps}, timeout=900)
